@@ -140,6 +140,45 @@ def exact_stream(ctx):
             ctx.compare('nu-squared', dict(case, scale=scale), 'match' if ok else f'nu²={mo}', 'match')
 
 
+def half_stream(ctx):
+    """half-precision models: every per-layer inner product is exactly representable, their SUM is not (it exceeds the
+    float16 range, or the small terms vanish next to a dominant one in bfloat16); the scalar is still
+    min(1, sqrt(kl / |Σ<V,D> lr²|)) of the exact sum"""
+    from kfac.preconditioner import KFACPreconditioner
+    rng = ctx.rng
+    for _ in range(ctx.budget(8, 60)):
+        kind = rng.choice(['fp16-range', 'bf16-absorb'])
+        kl = Fraction(1, 2 ** rng.randrange(4, 12))
+        if kind == 'fp16-range':
+            dt, nl = torch.float16, rng.randrange(3, 6)
+            m = torch.nn.Sequential(*[torch.nn.Linear(2, 2, bias=False) for _ in range(nl)]).to(dt)
+            vals = [(64.0, 128.0)] * nl                      # 4 * 8192 = 32768 per layer, exact; nl * 32768 > 65504
+            per = [4 * v * w for v, w in vals]
+        else:
+            dt, nl = torch.bfloat16, rng.randrange(12, 30)
+            m = torch.nn.Sequential(*[torch.nn.Linear(1, 1, bias=False) for _ in range(nl)]).to(dt)
+            vals = [(0.25, 0.5)] * (nl - 1) + [(8.0, 8.0)]   # visited in reverse: 64 first, then 0.125 each (absorbed in bf16)
+            per = [v * w for v, w in vals]
+        case = {'kind': kind, 'dtype': str(dt), 'layers': nl, 'kl': str(kl), 'per_layer_inner': per}
+        try:
+            p = KFACPreconditioner(m, kl_clip=float(kl), lr=1.0)
+            for (name, lay), (v, w) in zip(p._layers.values(), vals):
+                mod = lay.module.module
+                mod.weight.grad = torch.full_like(mod.weight, w)
+                lay.grad = torch.full_like(mod.weight, v)
+            scale = p._compute_grad_scale()
+        except Exception as e:  # noqa: BLE001
+            ctx.fail(f'_compute_grad_scale raised {type(e).__name__}: {e}', case, 'half-scale-raised')
+            continue
+        tot = sum(Fraction(x) for x in per)
+        want = min(1.0, (float(kl) / float(tot)) ** 0.5)
+        if not (scale > 0) or abs(scale - want) > 1e-6 * want or Fraction(scale) ** 2 * tot > kl * (1 + Fraction(1, 10**6)):
+            ctx.fail(f'{kind}: _compute_grad_scale() = {scale}, but min(1, sqrt(kl_clip/|Σ<V,D> lr²|)) = {want} (Σ = {float(tot)})',
+                     dict(case, scale=scale), 'nu-half')
+        ctx.evaluations += 1
+        ctx.count('half-' + kind)
+
+
 def ctor_stream(ctx):
     from kfac.preconditioner import KFACPreconditioner
     for method in ('eigen', 'inverse'):
@@ -175,6 +214,7 @@ def run(ctx):
     neox_stream(ctx)
     ctor_stream(ctx)
     exact_stream(ctx)
+    half_stream(ctx)
     twin_stream(ctx)
     rng = ctx.rng
     cfgs = []
